@@ -99,12 +99,27 @@ def expr(e):
             if isinstance(g.target, ast.Name) and len(g.ifs) <= 1 and not g.is_async:
                 cond = 'None' if not g.ifs else '(Some %s)' % expr(g.ifs[0])
                 return '(%s %s %s %s %s)' % (k, expr(a.elt), q(g.target.id), expr(g.iter), cond)
-        if isinstance(a, ast.Name):  # max(xs) == max(x for x in xs)
+        if not isinstance(a, ast.GeneratorExp):  # max(xs) == max(x for x in xs), xs any list-valued expression
             return '(%s (EVar "_x") "_x" %s None)' % (k, expr(a))
     if isinstance(e, ast.Call) and isinstance(e.func, ast.Name) and e.func.id in ('max', 'min') \
             and len(e.args) >= 2 and not e.keywords:
         k = 'EMaxGen' if e.func.id == 'max' else 'EMinGen'
         return '(%s (EVar "_x") "_x" (ETuple [%s]) None)' % (k, '; '.join(expr(x) for x in e.args))
+    if isinstance(e, ast.ListComp) and len(e.generators) == 1 and isinstance(e.generators[0].target, ast.Tuple) \
+            and all(isinstance(t, ast.Name) for t in e.generators[0].target.elts) \
+            and len(e.generators[0].ifs) <= 1 and not e.generators[0].is_async:
+        # [elt for a, b in it if c]  ==  [elt[a := p[0], b := p[1]] for p in it if c[...]]   (p is not a Python name;
+        # an element that is not a pair of the right length raises in Python, here p[i] is IndexError: both errors)
+        import copy
+        g = e.generators[0]
+        elt, cond = copy.deepcopy(e.elt), copy.deepcopy(g.ifs[0]) if g.ifs else None
+        for i, t in enumerate(g.target.elts):
+            by = ast.Subscript(value=ast.Name(id='%p', ctx=ast.Load()), slice=ast.Constant(value=i), ctx=ast.Load())
+            elt = Subst(t.id, by).visit(elt)
+            if cond is not None:
+                cond = Subst(t.id, by).visit(cond)
+        c = 'None' if cond is None else '(Some %s)' % expr(cond)
+        return '(EListComp %s "%%p" %s %s)' % (expr(elt), expr(g.iter), c)
     if isinstance(e, ast.ListComp) and len(e.generators) == 1:
         g = e.generators[0]
         if isinstance(g.target, ast.Name) and len(g.ifs) <= 1 and not g.is_async:
@@ -450,6 +465,13 @@ TARGETS = {
         ('fun', 'Box.margin_height', 'margin_height', {}),
         ('fun', 'Box.content_box_x', 'content_box_x', {}),
         ('fun', 'Box.content_box_y', 'content_box_y', {}),
+        ('fun', 'Box.border_box_x', 'border_box_x', {}),
+        ('fun', 'Box.border_box_y', 'border_box_y', {}),
+        ('fun', 'Box.rounded_box', 'rounded_box', {}),
+        ('fun', 'Box.rounded_box_ratio', 'rounded_box_ratio', {}),
+        ('fun', 'Box.rounded_padding_box', 'rounded_padding_box', {}),
+        ('fun', 'Box.rounded_border_box', 'rounded_border_box', {}),
+        ('fun', 'Box.rounded_content_box', 'rounded_content_box', {}),
     ]),
     'GenFloat': ('weasyprint/layout/float.py', [
         ('fun', 'get_clearance', 'get_clearance', {}),
